@@ -36,6 +36,15 @@ def hoist(e_json, free):
     return case
 
 
+def _nodes(j):
+    yield j
+    for x in j[1:]:
+        if isinstance(x, list):
+            for y in x:
+                if isinstance(y, list) and y and isinstance(y[0], str):
+                    yield from _nodes(y)
+
+
 def run(chk):
     maxt = 5 if chk.quick else 6
     es = exprgen.generate(chk, maxt, full="arith-small", roots=("a",))
@@ -43,6 +52,14 @@ def run(chk):
     n_exh = len(es)
     es += [e for e in exprgen.generate(chk, 9, full="arith", roots=("a",), simulate=300 if chk.quick else 15000, depth=10)
            if e[0] not in ("v", "c")]
+    # regrouping family: n-ary sums and products over two leaves, so that the same tuple of constant children
+    # occurs under different operators / at several places of one expression
+    rg = [e for e in exprgen.generate(chk, 9, full="regroup", roots=("a",)) if e[0] not in ("v", "c")]
+    import random
+    rng = random.Random(chk.seed)
+    small = [e for e in rg if sum(1 for _ in _nodes(e)) <= 7]
+    big = [e for e in rg if sum(1 for _ in _nodes(e)) > 7]
+    es += small + (rng.sample(big, min(len(big), 6000)) if chk.quick else big)
     cases = []
     for e in es:
         vs = exprgen.data_vars(e) + (["arr"] if "arr" in exprs.variables(e) else [])
